@@ -714,7 +714,7 @@ fn find_op(md: &mut Mod, coll: CollKind, arg: u32, counters: &mut Vec<(String, u
 }
 
 /// An id issued by module `a` used on module `b`: refused (panic / None), whatever `b` holds at that index.
-fn foreign_op(mods: &[Mod], a: usize, b: usize, coll: CollKind, nth: u32, counters: &mut Vec<(String, u64)>) -> R {
+fn foreign_op(mods: &mut [Mod], a: usize, b: usize, coll: CollKind, nth: u32, counters: &mut Vec<(String, u64)>) -> R {
     macro_rules! foreign {
         ($track:ident, $what:expr, $get:expr) => {{
             if mods[a].$track.ids.is_empty() {
@@ -728,16 +728,56 @@ fn foreign_op(mods: &[Mod], a: usize, b: usize, coll: CollKind, nth: u32, counte
             }
         }};
     }
+    macro_rules! foreign_del {
+        ($track:ident, $what:expr, $del:expr) => {{
+            if !mods[a].$track.ids.is_empty() {
+                let id = mods[a].$track.ids[nth as usize % mods[a].$track.ids.len()];
+                let m = &mut mods[b].m;
+                match refused(|| ($del)(m, id)) {
+                    // refused; that it changed nothing is checked by the invariants right after this step
+                    Err(()) => bump(counters, concat!("foreign_id_refused:", $what, ".delete")),
+                    Ok(_) => return fail("foreign_id_is_refused", format!("{}.delete with an id issued by another module returned normally", $what)),
+                }
+            }
+        }};
+    }
     match coll {
-        CollKind::Types => foreign!(types, "types", |m: &Module, id| m.types.get(id).params().len()),
-        CollKind::Funcs => foreign!(funcs, "funcs", |m: &Module, id| m.funcs.get(id).name.is_some()),
-        CollKind::Globals => foreign!(globals, "globals", |m: &Module, id| m.globals.get(id).mutable),
-        CollKind::Memories => foreign!(memories, "memories", |m: &Module, id| m.memories.get(id).initial),
-        CollKind::Tables => foreign!(tables, "tables", |m: &Module, id| m.tables.get(id).initial),
-        CollKind::Data => foreign!(data, "data", |m: &Module, id| m.data.get(id).value.len()),
-        CollKind::Elements => foreign!(elements, "elements", |m: &Module, id| m.elements.get(id).name.is_some()),
-        CollKind::Exports => foreign!(exports, "exports", |m: &Module, id| m.exports.get(id).name.len()),
-        CollKind::Imports => foreign!(imports, "imports", |m: &Module, id| m.imports.get(id).name.len()),
+        CollKind::Types => {
+            foreign!(types, "types", |m: &Module, id| m.types.get(id).params().len());
+            foreign_del!(types, "types", |m: &mut Module, id| m.types.delete(id));
+        }
+        CollKind::Funcs => {
+            foreign!(funcs, "funcs", |m: &Module, id| m.funcs.get(id).name.is_some());
+            foreign_del!(funcs, "funcs", |m: &mut Module, id| m.funcs.delete(id));
+        }
+        CollKind::Globals => {
+            foreign!(globals, "globals", |m: &Module, id| m.globals.get(id).mutable);
+            foreign_del!(globals, "globals", |m: &mut Module, id| m.globals.delete(id));
+        }
+        CollKind::Memories => {
+            foreign!(memories, "memories", |m: &Module, id| m.memories.get(id).initial);
+            foreign_del!(memories, "memories", |m: &mut Module, id| m.memories.delete(id));
+        }
+        CollKind::Tables => {
+            foreign!(tables, "tables", |m: &Module, id| m.tables.get(id).initial);
+            foreign_del!(tables, "tables", |m: &mut Module, id| m.tables.delete(id));
+        }
+        CollKind::Data => {
+            foreign!(data, "data", |m: &Module, id| m.data.get(id).value.len());
+            foreign_del!(data, "data", |m: &mut Module, id| m.data.delete(id));
+        }
+        CollKind::Elements => {
+            foreign!(elements, "elements", |m: &Module, id| m.elements.get(id).name.is_some());
+            foreign_del!(elements, "elements", |m: &mut Module, id| m.elements.delete(id));
+        }
+        CollKind::Exports => {
+            foreign!(exports, "exports", |m: &Module, id| m.exports.get(id).name.len());
+            foreign_del!(exports, "exports", |m: &mut Module, id| m.exports.delete(id));
+        }
+        CollKind::Imports => {
+            foreign!(imports, "imports", |m: &Module, id| m.imports.get(id).name.len());
+            foreign_del!(imports, "imports", |m: &mut Module, id| m.imports.delete(id));
+        }
         CollKind::Locals => foreign!(locals, "locals", |m: &Module, id| m.locals.get(id).name.is_some()),
         CollKind::Customs => {
             if mods[a].customs.ids.is_empty() {
@@ -785,7 +825,7 @@ pub fn run(ops: &[COp], n_modules: u8, initial_burn: u32) -> CollReport {
                     if a == b {
                         return Ok(());
                     }
-                    foreign_op(&mods, a, b, *coll, *nth, &mut rep.counters)
+                    foreign_op(&mut mods, a, b, *coll, *nth, &mut rep.counters)
                 }
                 COp::Burn { n } => {
                     for _ in 0..*n {
